@@ -1,4 +1,5 @@
 import Liquid.Sprint
+import Liquid.MapOrder
 /-!
 # `values.Convert` for the parameter types of the standard filters (DESIGN §4.3, A.7)
 
@@ -239,8 +240,9 @@ def convert (v0 : GoVal) (t : ParamTy) : Res Cause GoVal :=
     | .slice _ xs => .ok (.slice .any (convElems xs))     -- `[]any` without a drop: by reference, and `convElems xs = xs`
     | .array _ xs => .ok (.slice .any (convElems xs))
     | .bytes s => .ok (.slice .any (s.map fun b => .int .u8 b.toNat))
-    | .map _ _ kvs => .ok (.slice .any (convElems (kvs.map (·.2))))
-    | .keyedMap kvs => .ok (.slice .any (convElems (kvs.map (·.2))))
+    | .map _ _ kvs =>                                       -- for _, key := range SortedMapKeys(rv)
+      (MapOrder.sortedMapEntries kvs).bind fun es => .ok (.slice .any (convElems (es.map (·.2))))
+    | .keyedMap kvs => .ok (.slice .any (convElems ((MapOrder.sortedFields kvs).map (·.2))))   -- a map[string]any: the same
     | _ => .err .typeErr
   | .time =>
     match v with
